@@ -401,7 +401,7 @@ func AllConfigs() []Config {
 		{Name: "scorch-disk-v15", IndexType: scorch.Name, KV: scorch.Name, OnDisk: true, KVConfig: map[string]any{"forceSegmentType": "zap", "forceSegmentVersion": 15, "unsafe_batch": true}},
 		{Name: "scorch-disk-v11", IndexType: scorch.Name, KV: scorch.Name, OnDisk: true, KVConfig: map[string]any{"forceSegmentType": "zap", "forceSegmentVersion": 11, "unsafe_batch": true}},
 		{Name: "upsidedown-gtreap", IndexType: upsidedown.Name, KV: gtreap.Name},
-		{Name: "upsidedown-boltdb", IndexType: upsidedown.Name, KV: boltdb.Name, OnDisk: true, KVConfig: map[string]any{"nosync": true}},
+		{Name: "upsidedown-boltdb", IndexType: upsidedown.Name, KV: boltdb.Name, OnDisk: true, KVConfig: map[string]any{"nosync": true, "initialMmapSize": 8 << 20}},
 		{Name: "upsidedown-goleveldb", IndexType: upsidedown.Name, KV: goleveldb.Name, OnDisk: true},
 		{Name: "upsidedown-moss", IndexType: upsidedown.Name, KV: moss.Name},
 		{Name: "upsidedown-moss-lower", IndexType: upsidedown.Name, KV: moss.Name, OnDisk: true, KVConfig: map[string]any{"mossLowerLevelStoreName": "mossStore"}},
